@@ -1598,9 +1598,14 @@ class AsyncGraph:
         # Stop all nodes
         fs = [n._stop(timeout=timeout) for n in self._async_nodes.values()]
 
+        # The supervisor may not have created its next action future yet. Make sure it does not start waiting for it.
+        self._synchronizer._must_reset = True
+
         # Initiate stop (this unblocks the root's step, that is waiting for an action).
-        if len(self._synchronizer.action) > 0:
+        try:
             self._synchronizer.action[-1].cancel()
+        except IndexError:  # No pending action (the supervisor may pop it concurrently).
+            pass
 
         # Wait for all nodes to stop
         [f.result() for f in fs]  # Wait for all nodes to stop
